@@ -9,9 +9,6 @@
 //@start{
     let ghost d0 = dst@;
 //@}
-//@after 1 self.parent.serialize_to_vec(dst);{
-    proof { assert(dst@ =~= d0 + self.ser_spec()); }
-//@}
 //@fn deserialize_from_slice
 //@ret r
 //@start{
